@@ -348,6 +348,17 @@ func (x *Exec) callFunc(s *State, call *ast.CallExpr, f *types.Func, recv *Term)
 		cur := x.getSt(s, "stdout", SStr)
 		x.setSt(s, "stdout", catTerms(cur, catAll(parts)))
 		return []*Term{x.fresh("n", SInt), V("err_nil", SErr)}
+	case "fmt.Printf", "fmt.Print", "log.Printf", "log.Println", "log.Print":
+		// diagnostic output: arguments are evaluated (their obligations count), the text goes to the ghost stdout
+		for _, a := range call.Args {
+			x.evalMulti(s, a)
+		}
+		cur := x.getSt(s, "stdout", SStr)
+		x.setSt(s, "stdout", catTerms(cur, x.fresh("printed", SStr)))
+		if strings.HasPrefix(name, "fmt.") {
+			return []*Term{x.fresh("n", SInt), V("err_nil", SErr)}
+		}
+		return nil
 	case "io.WriteString":
 		w := x.eval(s, call.Args[0])
 		txt := x.eval(s, call.Args[1])
@@ -403,6 +414,13 @@ func (x *Exec) callFunc(s *State, call *ast.CallExpr, f *types.Func, recv *Term)
 				x.eval(s, a)
 			}
 			return outs
+		}
+		if cfi := x.u.Funcs[name]; cfi != nil && cfi.Body != nil && cfi.Lit == nil {
+			// a function of the repository without a contract (e.g. a helper extracted by a refactor): its body is executed
+			// in place when it is simple enough (no loops, defers, function literals, recursion)
+			if outs, ok := x.inlineFunc(s, call, cfi, sig, recv); ok {
+				return outs
+			}
 		}
 		x.fail(call, "no contract for callee %s", name)
 	}
@@ -821,4 +839,126 @@ func pureName(name string) string {
 		}
 		return r
 	}, name)
+}
+
+// ---------------------------------------------------------------------------
+// in-place execution of contract-less repository functions
+
+type inlineRet struct {
+	st   *State
+	vals []*Term
+}
+
+type inlineFrame struct {
+	fi          *FuncInfo
+	resultVars  []*types.Var
+	resultSorts []string
+	rets        []inlineRet
+}
+
+func inlinable(fi *FuncInfo) bool {
+	ok := true
+	ast.Inspect(fi.Body, func(n ast.Node) bool {
+		switch n.(type) {
+		case *ast.ForStmt, *ast.RangeStmt, *ast.DeferStmt, *ast.FuncLit, *ast.GoStmt, *ast.LabeledStmt:
+			ok = false
+		}
+		return ok
+	})
+	return ok
+}
+
+func (x *Exec) inlineFunc(s *State, call *ast.CallExpr, fi *FuncInfo, sig *types.Signature, recv *Term) ([]*Term, bool) {
+	if len(x.inlineStack) >= 3 || !inlinable(fi) || sig.Variadic() {
+		return nil, false
+	}
+	for _, fr := range x.inlineStack {
+		if fr.fi == fi {
+			return nil, false
+		}
+	}
+	args := x.evalArgs(s, call, sig)
+	fr := &inlineFrame{fi: fi}
+	csig := fi.Sig
+	if fi.Recv != nil {
+		if recv == nil {
+			return nil, false
+		}
+		s.vars[fi.Recv] = recv
+	}
+	if csig.Params().Len() != len(args) {
+		return nil, false
+	}
+	for i := 0; i < csig.Params().Len(); i++ {
+		s.vars[csig.Params().At(i)] = args[i]
+	}
+	for i := 0; i < csig.Results().Len(); i++ {
+		rv := csig.Results().At(i)
+		fr.resultVars = append(fr.resultVars, rv)
+		fr.resultSorts = append(fr.resultSorts, x.u.sortOf(rv.Type()))
+		if rv.Name() != "" && rv.Name() != "_" {
+			s.vars[rv] = x.u.zero(x.u.sortOf(rv.Type()))
+		}
+	}
+	savedInfo := x.info
+	x.info = fi.Pkg.TypesInfo
+	x.inlineStack = append(x.inlineStack, fr)
+	o := x.execBlock(s, fi.Body.List, x.entryState)
+	x.inlineStack = x.inlineStack[:len(x.inlineStack)-1]
+	x.info = savedInfo
+	if len(o.brk) > 0 || len(o.cont) > 0 {
+		x.fail(call, "break/continue out of an inlined function")
+	}
+	for _, st := range o.normal {
+		if len(fr.resultVars) > 0 {
+			x.fail(call, "inlined function %s falls off its end", fi.Name)
+		}
+		fr.rets = append(fr.rets, inlineRet{st: st})
+	}
+	if len(fr.rets) == 0 {
+		// every path of the callee ended otherwise (cannot happen without panics): treat as unreachable
+		s.assume(False)
+		var outs []*Term
+		for i := range fr.resultVars {
+			outs = append(outs, x.u.zero(fr.resultSorts[i]))
+		}
+		return outs, true
+	}
+	// join the return paths: the results travel in synthetic variables so that merge treats them like locals
+	var tmp []*types.Var
+	for i, rv := range fr.resultVars {
+		tmp = append(tmp, types.NewVar(token.NoPos, fi.Pkg.Types, fmt.Sprintf("$inl%d_%d", len(x.inlineStack), i), rv.Type()))
+	}
+	var sts []*State
+	for _, r := range fr.rets {
+		for i, v := range tmp {
+			r.st.vars[v] = r.vals[i]
+		}
+		sts = append(sts, r.st)
+	}
+	var m *State
+	if len(sts) == 1 {
+		m = sts[0]
+	} else {
+		saved := x.c.Options["paths"]
+		if saved {
+			delete(x.c.Options, "paths")
+		}
+		ms := x.merge(sts)
+		if saved {
+			x.c.Options["paths"] = true
+		}
+		if len(ms) != 1 {
+			x.fail(call, "return paths of inlined function %s could not be joined", fi.Name)
+		}
+		m = ms[0]
+	}
+	var outs []*Term
+	for i, v := range tmp {
+		outs = append(outs, withType(m.vars[v], fr.resultVars[i].Type()))
+		delete(m.vars, v)
+	}
+	s.vars, s.st, s.pc, s.pseudo = m.vars, m.st, m.pc, m.pseudo
+	x.assumptions["function "+fi.Name+" has no contract: its body is executed in place at its call sites"] = true
+	return outs, true
 }
